@@ -148,9 +148,12 @@ namespace nmtools::index
                 for (nm_size_t i=0; i<nm_size_t(dim); i++) {
                     at(result,i) = at(indices,i);
                 }
-                auto shape_i = at(shape,axis);
-                auto index   = nm_index_t(at(indices,axis)) - shift;
-                at(result,axis) = normalize_roll_index(index,shape_i);
+                // NOTE: use a built-in signed index so that a negative axis counts from the end whatever integer type carries it
+                // (a negative clipped integer would otherwise be converted to a huge unsigned index)
+                auto m_axis  = (nm_index_t)axis;
+                auto shape_i = at(shape,m_axis);
+                auto index   = nm_index_t(at(indices,m_axis)) - shift;
+                at(result,m_axis) = normalize_roll_index(index,shape_i);
             } else /* if constexpr (meta::is_index_array_v<axis_t>) */ {
                 // fill with index first then adjust at axis
                 for (nm_size_t i=0; i<nm_size_t(dim); i++) {
@@ -158,7 +161,7 @@ namespace nmtools::index
                 }
                 auto m_shift = normalize_roll_length(shift,axis);
                 for (size_t i=0; i<len(axis); i++) {
-                    auto axis_i  = at(axis,i);
+                    auto axis_i  = (nm_index_t)at(axis,i);
                     auto shape_i = at(shape,axis_i);
                     auto index   = nm_index_t(at(result,axis_i)) - at(m_shift,i);
                     at(result,axis_i) = normalize_roll_index(index,shape_i);
